@@ -558,3 +558,27 @@ Example C08_trial_example :
   | Err _ => False
   end.
 Proof. vm_compute. repeat split. Qed.
+
+(* ---- Extension: ParameterSet.generate_random_floating_param_initials ----
+   one initial per floating parameter (ValueError on a length mismatch), and
+   over the rationals every initial lies within the bounds of its parameter
+   for uniforms in [0,1] and lower <= upper *)
+Theorem C08_initials_shape : forall (T : Type) (N : Num T) (bounds : list (T * T)) (u r : list T),
+  param_initials N bounds u = Ok r -> length r = length bounds /\ length u = length bounds.
+Proof. exact (@param_initials_length). Qed.
+Print Assumptions C08_initials_shape.
+
+Theorem C08_initials_in_bounds_Q : forall (bounds : list (Q * Q)) (u r : list Q),
+  Forall (fun b => (fst b <= snd b)%Q) bounds ->
+  Forall (fun x => (0 <= x)%Q /\ (x <= 1)%Q) u ->
+  param_initials QNum bounds u = Ok r ->
+  Forall2 (fun b v => (fst b <= v)%Q /\ (v <= snd b)%Q) bounds r.
+Proof. exact param_initials_in_bounds_Q. Qed.
+Print Assumptions C08_initials_in_bounds_Q.
+
+Example C08_initials_example :
+  match param_initials QNum [(0, 2); (1, 9); (-3, -3)]%Q [1 # 2; 1 # 4; 1]%Q with
+  | Ok r => map Qred r = [1; 3; -3]%Q
+  | Err _ => False
+  end /\ param_initials QNum [(0, 2)]%Q [] = Err ValueError.
+Proof. split; vm_compute; reflexivity. Qed.
